@@ -469,6 +469,7 @@ fn body(ctx: &Arc<Ctx>, sid: usize, r: &[Box<dyn RG + '_>], w: &mut [Box<dyn WG 
 pub fn rendezvous(ctx: &Ctx, idx: usize) {
     let r = ctx.rdv.lock().unwrap()[idx].clone();
     r.arrived.fetch_add(1, Ordering::SeqCst);
+    detsim::poke();
     let need = r.need.load(Ordering::SeqCst);
     let a = r.arrived.clone();
     detsim::block_until("rendezvous", move || a.load(Ordering::SeqCst) >= need);
